@@ -21,6 +21,9 @@ def parseReq (j : Json) : Option Req := do
 def cfgFor (j : Json) : Cfg :=
   let redis := jStr j "backend" == "redis" || jStr j "backend" == "engine-redis"
   let base := if jStr j "backend" == "redis-multinode" then todayRedisMultiNode else today (jBool j "strict") (!redis)
+  -- the real iam handlers call a collaborator between accepting the secret and returning (the harness parks them there):
+  -- RequestJWTByGet/Post the signer, the token endpoint the access-token store
+  let base := if jStr j "level" == "iam" then { base with ext := fun b => b == .reqObj || b == .code } else base
   if jHas j "ttl" then
     let t := jObj j "ttl"
     { base with ttl := fun k => if jHas t k.name then jNat t k.name else base.ttl k }
@@ -35,6 +38,7 @@ def pcAfter (cfg : Cfg) (t : Thread) : String :=
      | .wantLock => "blocked"
      | .atCall => (if cfg.gad = .singleCall then "@getdel " else "@get ") ++ k
      | .atDel _ => "@del " ++ k
+     | .atExt _ => "@ext handler"
      | .atBurn _ => "@del " ++ k
      | .done o => "done:" ++ o.name)
   | .mark r pc _ =>
@@ -58,6 +62,7 @@ def didOp (cfg : Cfg) (w : World) (t : Thread) : String :=
      | .atCall => (if cfg.gad = .singleCall then "getdel" else "get") ++ (if r.failGet then ":fail" else hitMiss cfg w t.key)
      | .atDel _ => if r.failDel then "del:fail" else delRes cfg w t.key
      | .atBurn _ => if r.failDel then "del:fail" else delRes cfg w t.key
+     | .atExt _ => "ext:ok"
      | _ => "")
   | .mark r pc _ =>
     (match pc with
